@@ -1,4 +1,4 @@
-import EdpVerif.Generated.Misc
+import EdpVerif.Generated.MiscC16
 /-!
 Model of `crates/edp_client/src/pid_allocator.rs` (`PidAllocator`), bug-for-bug.
 
